@@ -952,12 +952,37 @@ def _is_mutable_literal(v):
         or (isinstance(v, ast.Call) and isinstance(v.func, ast.Attribute) and v.func.attr in ("defaultdict", "OrderedDict", "deque"))
 
 
+def foreign_private_rule(index, rep, rid, modules):
+    """(d) a function that takes a local alias of ANOTHER object's private container (`x = obj._field`, obj not self,
+    `_field` not a field of the function's own class) reads it only: popping from / appending to the alias changes the
+    other object behind its interface (a namespace loses its taxa, a list its trees)."""
+    n = 0
+    for m in modules:
+        for f in index.functions_in_module(m):
+            own = None
+            for w in writes_in(f.node):
+                if not (w.kind in ("mutcall", "substore", "subdel") and w.via_alias and w.attr.startswith("_") and not w.attr.startswith("__")):
+                    continue
+                if w.base is None or norm(w.base) in ("self", "cls"):
+                    continue
+                if own is None:
+                    own = set()
+                    if f.cls is not None:
+                        for k in index.mro(f.cls):
+                            for meth in k.methods.values():
+                                own |= {x.attr for x in writes_in(meth.node) if x.base is not None and norm(x.base) == "self"}
+                n += 1
+                rep.check(w.attr in own, rid, f.qualname, "another object's `%s` mutated through the alias `%s`" % (w.attr, w.via_alias), fn_where(f, w.stmt), "",
+                          "%s binds `%s` to `%s.%s` - the private container of another object - and then changes it in place (`%s`): the other object is modified behind its interface (a taxon namespace loses the taxa that are popped, and everything else that uses the namespace with them); work on a copy" % (f.qualname, w.via_alias, norm(w.base), w.attr, norm_stmt(w.stmt)[:60]))
+    return n
+
+
 def shared_state_rule(index, rep, rid, modules):
     """Nothing mutable is shared between calls or between objects behind the caller's back:
     (a) no mutable default argument; (b) a class-level mutable container is neither mutated through an instance / the
     class nor handed on uncopied (stored on an instance, passed as an argument, returned); (c) no function mutates a
     module-level mutable container."""
-    n = 0
+    n = foreign_private_rule(index, rep, rid, modules)
     for m in modules:
         mod = index.module(m)
         for f in index.functions_in_module(m):
